@@ -50,7 +50,7 @@ type params struct {
 func (*prop) Cases(seed int64, tier string) []core.Case {
 	shards, genCases, per := 8, 16, 4
 	if tier == "thorough" {
-		shards, genCases, per = 8, 48, 12
+		shards, genCases, per = 8, 96, 12
 	}
 	var cs []core.Case
 	for i := 0; i < shards; i++ {
